@@ -17,8 +17,10 @@ for id in $IDS; do
   for c in $checks; do
     [ -f props/$c.py ] || continue
     out=/tmp/sweep/out-$id-$c; mkdir -p $out
-    VERIF_REPO=$wt VERIF_OUT=$out timeout 1500 ./check $c > $out/log 2>&1; rc=$?
-    first=$(grep -m1 -E "VIOLATION|UNDECIDED|CHECKER" $out/log | cut -c1-160)
+    VERIF_REPO=$wt VERIF_OUT=$out timeout 3000 ./check $c > $out/log 2>&1; rc=$?
+    # the line reported: a violation decided by a deductive obligation if there is one, else one seen by a bounded native family only
+    first=$(grep -E "VIOLATION" $out/log | grep -v "bounded-native" | head -1 | cut -c1-200)
+    [ -z "$first" ] && first=$(grep -m1 -E "VIOLATION|UNDECIDED|CHECKER" $out/log | cut -c1-200)
     echo "$id check=$c exit=$rc :: $first" >> /tmp/sweep/results.txt
   done
   git -C /repo worktree remove --force $wt
